@@ -1,18 +1,35 @@
 """C13 — simplification is a terminating, idempotent, cache-transparent canonicaliser."""
 HANDLER = "C13"
-RULE = ("batches of 2..7 expressions (random + rule-directed, narrow per-batch width pool so that sub-terms are shared, later members built "
+RULE = ("stream main: batches of 2..7 expressions (random + rule-directed, narrow per-batch width pool so that sub-terms are shared, later members built "
         "from earlier ones) fed in a random order to ONE Simplifier instance with a sparse cache and in reverse order to one with a dense cache; "
         "each result compared by reference with a fresh simplifier's result, with the re-simplified result, and as a tree with the cache-free "
         "model; then the extracted MEMOISING driver model (Model/SimplifyCache.v: work stack, persistent cache, get_fixed_point with pointer "
         "updates) is run on the same two histories and its per-member results and its FINAL CACHE (every key -> value entry, read from both "
         "instances through the cfg(patronus_verif) hook verif_cache_entries) must equal the implementation's (result key batch+cache; histories "
         "whose cache exceeds 6000 tree nodes are compared on results only, key batch); a 20 s watchdog per batch detects non-termination. "
-        "distinct = distinct batches")
+        "stream containers: random operation histories (4..60 operations; keys around 0, 63/64/65, 127/128, 191/192, 255/256, their neighbours, "
+        "and now and then 511..4097 or 65535/65536/100000) on the REAL containers of patronus/src/expr/meta.rs, the same history through "
+        "DenseExprMetaData and SparseExprMap (get, set Some/None, read through index_mut, iter, non_default_value_keys, into_vec, get_fixed_point "
+        "on generated chains ending in a self link, a None entry, an unset key or a back edge) or through DenseExprSet and SparseExprSet "
+        "(insert, remove, contains); every returned value and the final raw contents (dense vector, hash-map entries incl. default-valued "
+        "ones, the 64-bit words, the hash-set members) must equal the extracted model Model/ExprMeta.v (key containers-map / containers-set), "
+        "and the two containers must answer alike (oracle, key container-dependent; a panic: key container-panic). A get_fixed_point call whose "
+        "chain runs into a cycle of length >= 2 is not made (the Rust loop would not terminate); the model must answer out-of-fuel there. "
+        "distinct = distinct batches / distinct operation histories")
 ASSUMPTIONS = [
     "termination is PROVED for the cache-free driver model (polynomial measure mu, strictly decreased by every rule) and transferred to the memoising driver "
     "model by the completeness theorem (C13_cached_complete); a watchdog still observes the real code; run time is not part of the statement",
-    "cache transparency is PROVED for the memoising driver model (cache as a finite map; calls that return); the two cache containers are abstracted to that "
-    "finite-map interface, their agreement (results and final contents) is compared on generated histories, not proved",
+    "cache transparency is PROVED for the memoising driver model keyed by expression trees (Model/SimplifyCache.v; calls that return)",
+    "container irrelevance is PROVED: Model/ExprMeta.v models meta.rs (dense vector with resize on index_mut, hash map as an association list with "
+    "entry().or_default(), 64-bit word sets, get_fixed_point with its two loops); both map containers refine one total map ExprRef -> T, both set "
+    "containers one set incl. the returned booleans, get_fixed_point gives the same answer and the same map on either container, and the memoising "
+    "driver written against the container interface (Model/SimplifyCacheRefs.v, ExprRef-keyed, interning table) returns the same results and leaves "
+    "the same map with the dense, the sparse and the specification-level container on EVERY history (C13_container_irrelevant, C13_containers_refine_map)",
+    "that Model/ExprMeta.v is what meta.rs does is tied by the containers stream on the real types (all of them are public; no hook needed; the word "
+    "vector of DenseExprSet and the members of SparseExprSet are read from their derived Debug text)",
+    "NOT proved: that the ExprRef-keyed driver of SimplifyCacheRefs.v (interning table, reference comparison) and the tree-keyed driver of SimplifyCache.v "
+    "agree - this is the canonicity of interning (C12); it is evaluated on one history in Props/C13.v and, in the tie, the tree-keyed model is what the real "
+    "dense and sparse instances are compared with (results and every cache entry). The u32 range of ExprRef and allocation failure are outside the model",
 ]
 MANIFEST = dict(
     level_text=("Theorems in Coq: C13_simplifier_total (the whole property for the memoising driver model: for every well-typed expression without a product "
@@ -22,13 +39,21 @@ MANIFEST = dict(
                 "C13_cache_transparent, C13_history_transparent, C13_history_independent, C13_cached_idempotent (the memoising driver model of transform.rs/"
                 "meta.rs - work stack, persistent cache, re-queuing, get_fixed_point with pointer updates - returns, after ANY history with the same instance, "
                 "the cache-free result of the expression alone; invariant cache_inv holds for the empty cache and is preserved by every call). "
-                "Tie: results AND final cache contents of real sparse/dense instances against the extracted model."),
-    level_note="Full for the model (termination, idempotence, cache transparency, completeness); container difference (sparse/dense) and run time are outside the theorems (tested / not claimed).",
+                "Cache containers (model of meta.rs, Model/ExprMeta.v): C13_dense_map_refines, C13_sparse_map_refines (both refine one total map ExprRef -> T: "
+                "empty, store, read through index_mut, iter, into_vec, non_default_value_keys), C13_dense_set_refines, C13_sparse_set_refines (one set, incl. the "
+                "returned booleans; shifts and masks on 64-bit words), C13_get_fixed_point_container_irrelevant, C13_get_fixed_point_fuel_monotone, "
+                "C13_container_irrelevant / C13_container_irrelevant_from / C13_containers_refine_map (the memoising driver over the container interface returns the same "
+                "results and leaves the same map with the dense, the sparse and the specification-level container, on every history). "
+                "Tie: results AND final cache contents of real sparse/dense Simplifier instances against the extracted driver model; operation histories on the real "
+                "containers of meta.rs against the extracted container model (every returned value, final raw contents)."),
+    level_note="Full for the models (termination, idempotence, cache transparency, completeness, container irrelevance); the agreement of the reference-keyed and the tree-keyed driver model (canonicity of interning, C12) and run time are outside the theorems.",
     category="proof",
 )
 
 
 def streams(tier, seed):
     if tier == "quick":
-        return [dict(tag="main", count=8000, seed=seed)]
-    return [dict(tag="main%d" % k, count=15000, seed=seed * 100 + k) for k in range(8)]
+        return [dict(tag="main", count=8000, seed=seed),
+                dict(tag="containers", count=2000, seed=seed + 7, extra={"mode": "containers"})]
+    return ([dict(tag="main%d" % k, count=15000, seed=seed * 100 + k) for k in range(8)] +
+            [dict(tag="containers%d" % k, count=12000, seed=seed * 100 + 50 + k, extra={"mode": "containers"}) for k in range(4)])
